@@ -340,7 +340,10 @@ def flight_stress_result(ctx, res, traces, thorough):
     out = parallel(jobs)
     accepted = 0
     ok, r = out[0]
-    if r.violated and r.violated != "Consumed":
+    if r.violated and r.violated != "Consumed" and not counts("flight/monitor/" + r.violated):
+        ctx.cov["drift"] += 1
+        ctx.log("DRIFT (not this check's to judge): %s is false on a recorded concurrent history of groupLookup" % r.violated)
+    elif r.violated and r.violated != "Consumed":
         ctx.violation("flight/monitor/" + r.violated,
                       "[flight stress] %s is false on a recorded concurrent history of Resolver.groupLookup" % r.violated,
                       {"driver": "flight-stress", "seed": ctx.seed, "trace": open(allpath).read().splitlines()[:600]})
@@ -359,7 +362,7 @@ def flight_stress_result(ctx, res, traces, thorough):
             accepted += 1
             infos[name]["model_trace"] = "accepted"
             infos[name]["model_trace_states"] = r.distinct
-        elif r.violated:
+        elif r.violated and counts("flight/trace/" + r.violated):
             ctx.violation("flight/trace/" + r.violated,
                           "[flight stress %s] invariant %s is false on a recorded concurrent history of Resolver.groupLookup" % (name, r.violated),
                           replay_obj(name))
@@ -505,6 +508,9 @@ def breaker_result(ctx, res, infos, trace, thorough):
     elif r.violated is None and r.distinct >= 1500000 - 1000:
         sinfo["model_trace"] = "inconclusive (search budget exhausted)"
         ctx.log("breaker stress: depth-first explanation search exhausted its budget; inconclusive")
+    elif r.violated and not counts("breaker/trace/" + r.violated):
+        ctx.cov["drift"] += 1
+        ctx.log("DRIFT (no listed statement speaks about the breaker's thresholds): %s is false on a recorded history" % r.violated)
     elif r.violated:
         ctx.violation("breaker/trace/" + r.violated, "[breaker stress] %s is false on a recorded concurrent history of the "
                       "circuit breaker" % r.violated, {"driver": "breaker-stress", "seed": ctx.seed, "trace": lines[:400]})
@@ -630,6 +636,43 @@ def model_check_jobs(ctx, thorough):
     return jobs, post, heavy
 
 
+# Which listed property a verdict class of this tier belongs to.  A property check that runs the tier sets ONLY to its
+# own id ("C10" / "C11"): the other property's classes, and the classes no listed statement speaks about (the circuit
+# breaker's thresholds), are then logged as drift.  None = standalone: everything counts.
+ONLY = None
+CLASS_OF = {
+    # C10: the reply a caller gets out of a shared lookup is its own (id, question) and a private copy
+    "own-reply": "C10", "deep-copy": "C10", "nil-result": "C10", "OwnQuestion": "C10", "OwnReply": "C10", "PrivateCopy": "C10",
+    # C11: exactly one outcome in time, cancellation/capacity refusal private to the caller, nothing leaks
+    "caller-never-returned": "C11", "cancelled-caller-wedged": "C11", "foreign-cancellation": "C11",
+    "slots-not-released": "C11", "waiter-not-served": "C11", "stale-flight": "C11", "flight-not-forgotten": "C11",
+    "attempt-without-slot": "C11", "zone-negative": "C11", "Answered": "C11", "FreshFlight": "C11", "CtxPrivate": "C11",
+    "SlotsBalanced": "C11", "Forgotten": "C11",
+}
+
+
+def counts(key):
+    if ONLY is None:
+        return True
+    parts = key.split("/")
+    if parts[0] == "pool":
+        return ONLY == "C11"
+    if parts[0] == "breaker":
+        return False
+    return CLASS_OF.get(parts[-1], "C11") == ONLY
+
+
+def filter_result(ctx, res):
+    keep = []
+    for v in res.get("violations", []):
+        if counts(v.get("key", "")):
+            keep.append(v)
+        else:
+            ctx.cov["drift"] += 1
+            ctx.log("DRIFT (class %s is not this check's to judge): %s" % (v.get("key"), v.get("what")))
+    res["violations"] = keep
+
+
 def run_tier(ctx):
     thorough = ctx.tier == "thorough"
     ctx.cov["rule"] = (ctx.cov.get("rule", "") + " | X11FL: behaviours = TLC-simulated Coarse behaviours of Flight.tla forced on the "
@@ -664,6 +707,7 @@ def run_tier(ctx):
     inp = {"flight": fl_inputs, "stress": st_input, "breaker": br_inputs, "pool": pl_input,
            "breakerStress": {"rounds": 6 if not thorough else 60, "procs": 4, "ops": 20, "traceOut": brk_trace}}
     res = ctx.go_driver("./x11fl", "TestAll", inp, name="x11fl_all", timeout=2400)
+    filter_result(ctx, res)
     ctx.take_driver_result(res, "")
     ctx.cov["replay"]["drivers"] = {"drift": res["drift"], "drift_notes": res.get("drift_notes", []), "skipped": res.get("skipped", [])}
     if res.get("skipped"):
